@@ -68,6 +68,8 @@ func VerifC05(nTracks int, pattern string, sizes string, optimize bool, sw bool,
 	}
 	fragNr := 0
 	var frag *Fragment
+	var lazy [][]byte // separately written media data per fragment
+	anyLazy := false
 	newFrag := func() {
 		fragNr++
 		var err error
@@ -80,6 +82,7 @@ func VerifC05(nTracks int, pattern string, sizes string, optimize bool, sw bool,
 			panic("harness: create fragment")
 		}
 		seg.AddFragment(frag)
+		lazy = append(lazy, nil)
 		want = append(want, make([][]FullSample, nTracks))
 		if extra&1 != 0 {
 			frag.AddEmsg(&EmsgBox{Version: 1, TimeScale: 90000, PresentationTime: vfy.U64("emsgpt"), ID: vfy.U32("emsgid"), SchemeIDURI: "urn:x", Value: "1"})
@@ -105,17 +108,19 @@ func VerifC05(nTracks int, pattern string, sizes string, optimize bool, sw bool,
 		case 'T':
 			err := frag.AddFullSampleToTrack(record(tr, c05NewSample(nextSize())), trackIDs[tr])
 			vfy.Assert(err == nil, "AddFullSampleToTrack error")
-		case 'S':
+		case 'S': // metadata only; the media data is written by the caller after the fragment
 			s := record(tr, c05NewSample(nextSize()))
 			err := frag.AddSampleToTrack(s.Sample, trackIDs[tr], s.DecodeTime)
 			vfy.Assert(err == nil, "AddSampleToTrack error")
-			frag.Mdat.AddSampleData(s.Data)
+			lazy[len(lazy)-1] = append(lazy[len(lazy)-1], s.Data...)
+			anyLazy = true
 		case 'M':
 			a := record(tr, c05NewSample(nextSize()))
 			b := record(tr, c05NewSample(nextSize()))
 			frag.AddSamples([]Sample{a.Sample, b.Sample}, a.DecodeTime)
-			frag.Mdat.AddSampleData(a.Data)
-			frag.Mdat.AddSampleData(b.Data)
+			lazy[len(lazy)-1] = append(lazy[len(lazy)-1], a.Data...)
+			lazy[len(lazy)-1] = append(lazy[len(lazy)-1], b.Data...)
+			anyLazy = true
 		case 'I':
 			a := record(tr, c05NewSample(nextSize()))
 			b := record(tr, c05NewSample(nextSize()))
@@ -124,12 +129,26 @@ func VerifC05(nTracks int, pattern string, sizes string, optimize bool, sw bool,
 			vfy.Assert(err == nil, "AddSampleInterval error")
 		}
 	}
-	// encode
+	// encode; when samples were added as metadata only, the caller writes their data after
+	// each fragment (the mdat header already announces it)
 	var segBytes []byte
 	if sw {
-		// Size() may shrink when trun optimisation is on, so allocate generously
-		w := bits.NewFixedSliceWriter(int(seg.Size()) + 64)
-		err := seg.EncodeSW(w)
+		w := bits.NewFixedSliceWriter(int(seg.Size()) + 256)
+		var err error
+		if !anyLazy {
+			err = seg.EncodeSW(w)
+		} else {
+			if seg.Styp != nil {
+				err = seg.Styp.EncodeSW(w)
+			}
+			for fi, f := range seg.Fragments {
+				if err == nil {
+					f.EncOptimize = seg.EncOptimize
+					err = f.EncodeSW(w)
+					w.WriteBytes(lazy[fi])
+				}
+			}
+		}
 		vfy.Assert(err == nil, "segment EncodeSW error")
 		if err != nil {
 			return
@@ -137,7 +156,21 @@ func VerifC05(nTracks int, pattern string, sizes string, optimize bool, sw bool,
 		segBytes = w.Bytes()
 	} else {
 		var buf bytes.Buffer
-		err := seg.Encode(&buf)
+		var err error
+		if !anyLazy {
+			err = seg.Encode(&buf)
+		} else {
+			if seg.Styp != nil {
+				err = seg.Styp.Encode(&buf)
+			}
+			for fi, f := range seg.Fragments {
+				if err == nil {
+					f.EncOptimize = seg.EncOptimize
+					err = f.Encode(&buf)
+					buf.Write(lazy[fi])
+				}
+			}
+		}
 		vfy.Assert(err == nil, "segment Encode error")
 		if err != nil {
 			return
